@@ -106,6 +106,10 @@ def run(ctx):
         wa = list(range(i)) + [None] + list(range(i + len(block), j + len(block))) + [None] + list(range(j + 2 * len(block), len(full)))
         where = {"a.s": wa, "u1.s": list(range(i, i + len(block))), "lib/u2.s": list(range(j + len(block), j + 2 * len(block)))}
         cases.append((full, [("a.s", "\n".join(a_lines) + "\n"), ("u1.s", "\n".join(block) + "\n"), ("lib/u2.s", "\n".join(block) + "\n")], "a.s", where))
+    # the witness of the recorded finding (known_findings.json: labels of one function entry spread over two files)
+    wp = ["main:", "B1:", " li a7, 5", " ecall", " ret", " call B2", " call B1", " li a7, 10", " ecall", "B2:", " j B1"]
+    cases.append((wp, [("a.s", "\n".join([wp[0], '.include "inc1.s"'] + wp[5:]) + "\n"), ("inc1.s", "\n".join(wp[1:5]) + "\n")], "a.s",
+                  {"a.s": [0, None] + list(range(5, 11)), "inc1.s": [1, 2, 3, 4]}))
     pasted = lib.run_impl(ctx, [lib.store_cmd("repeat 1", pipe.single("\n".join(p) + "\n"), "a.s") for p, _, _, _ in cases], tag="pasted")
     split = lib.run_impl(ctx, [lib.store_cmd("repeat 1", f, b) for _, f, b, _ in cases], tag="split")
     # nodes and parse errors of the tree = those of the pasted file, up to positions (the statement sequence itself)
@@ -135,9 +139,25 @@ def run(ctx):
             continue
         ka, kb = key_items(ia), key_items(ib, where)
         if ka != kb:
-            failing.append(dict(files=files, base=base, kind="cut", pasted="\n".join(p),
+            only_a, only_b = [x for x in ka if x not in kb], [x for x in kb if x not in ka]
+            cls = None
+            if only_a and len(only_a) == len(only_b) and all(x[1] == "Node in many functions" for x in only_a + only_b):
+                # the recorded finding: both places are labels of ONE entry (nothing but labels between them in the pasted
+                # program) that the cut put into different files
+                fl = lambda ln: next((fn for fn, wl in where.items() if ln in wl), None)
+                same_entry = True
+                for x, y in zip(sorted(only_a, key=repr), sorted(only_b, key=repr)):
+                    if not (isinstance(x[2], int) and isinstance(y[2], int)):
+                        same_entry = False
+                        break
+                    lo, hi = sorted([x[2], y[2]])
+                    if not all(l.strip().endswith(":") for l in p[lo:hi + 1]) or fl(lo) == fl(hi):
+                        same_entry = False
+                if same_entry:
+                    cls = "cut:overlap-label-choice-across-files"
+            failing.append(dict(files=files, base=base, kind="cut", pasted="\n".join(p), cls=cls,
                                 why="the include tree and the pasted file get different diagnostics (sev, title, original line, columns): only pasted %s / only split %s" % (
-                                    [x for x in ka if x not in kb][:3], [x for x in kb if x not in ka][:3])))
+                                    only_a[:3], only_b[:3])))
     # ---- faults --------------------------------------------------------------------------------------
     fault_cases = []
     for p in progs[:120 * k]:
@@ -254,6 +274,17 @@ def run(ctx):
              "directory trees with nested sub-directories vs the pasted file, --all-files vs counter; plus model correspondence (parse, diag)",
         samples=[dict(files=cases[0][1])] if cases else [], tree_sizes=depth_hist, fault_cases=len(fault_cases), cli_runs=cli_runs,
         correspondence_disagreements=len(dis), oracle_failures=len(failing), exhaustive=False)
+    known = lib.load_known("C15")
+    fresh = []
+    for f in failing:
+        hit = [x for x in known if x["class"] == f.get("cls")]
+        if hit:
+            line = "%s: %s" % (f["cls"], hit[0]["what"][:160])
+            if line not in ctx.known_lines:
+                ctx.known_lines.append(line)
+        else:
+            fresh.append(f)
+    failing = fresh
     if failing:
         lib.violation(ctx, "input", dict(property="C15", input=failing[0], all_failing=failing[:10]), True)
         return
